@@ -245,3 +245,40 @@ def decode_reply(d):
 async def settle(rounds=6):
     for _ in range(rounds):
         await asyncio.sleep(0)
+
+
+class WarpLoop(asyncio.SelectorEventLoop):
+    """An event loop whose clock the harness can push forward: `loop.warp(seconds)` makes every timer that would have
+    fired within that real time fire now (timeouts, periodic notices, keep-alive pings), without waiting for it.
+    Nothing else changes, so it produces exactly the behaviour of a schedule with that much idle time in it."""
+
+    def __init__(self):
+        super().__init__()
+        self.offset = 0.0
+        self.warped = 0.0
+
+    def time(self):
+        return super().time() + self.offset
+
+    def warp(self, seconds):
+        self.offset += seconds
+        self.warped += seconds
+
+
+def run_warped(coro_fn):
+    """asyncio.run() on a WarpLoop."""
+    loop = WarpLoop()
+    asyncio.set_event_loop(loop)
+    try:
+        return loop.run_until_complete(coro_fn())
+    finally:
+        try:
+            pending = [t for t in asyncio.all_tasks(loop) if not t.done()]
+            for t in pending:
+                t.cancel()
+            if pending:
+                loop.run_until_complete(asyncio.gather(*pending, return_exceptions=True))
+            loop.run_until_complete(loop.shutdown_asyncgens())
+        finally:
+            asyncio.set_event_loop(None)
+            loop.close()
